@@ -417,6 +417,8 @@ class Library(object):
             # (to whole seconds) when 1000 <= year, any literal prefix.
             ctx.assume(z3.InRe(r, spec.ASCII_RE))
             ctx.assume(z3.Not(z3.Contains(r, z3.StringVal('\n'))))
+        ctx.notes.setdefault('ascii', set()).add(tid(r))
+        ctx.notes.setdefault('nonewline', set()).add(tid(r))
         return mk(r)
 
     # ------------------------------------------------------------------
@@ -500,6 +502,12 @@ class Library(object):
         t = z3str(s)
         ctx.used_axioms.add('str.encode(utf-8): identity on ASCII; '
                             'UnicodeEncodeError iff a surrogate is present')
+        # syntactic: a concatenation of ASCII literals and of results known to
+        # be ASCII (quote, strftime) is ASCII: encode is the identity
+        asc = ctx.notes.get('ascii', ())
+        if all((spec.lit(p) is not None and all(ord(c) < 128 for c in spec.lit(p)))
+               or tid(p) in asc for p in spec.pieces(t)):
+            return Sym(t, 'bytes')
         enc_ok = z3.Bool('utf8_encodable(%d)' % tid(t))
         ctx.assume(z3.Implies(z3.InRe(t, spec.ASCII_RE), enc_ok))
         if not ctx.branch(enc_ok, 'utf8-encodable'):
@@ -555,7 +563,9 @@ class Library(object):
                     for sg in segs[1:]:
                         lines.append([z3.StringVal(sg)])
                 else:
-                    if not ctx.entails(z3.Not(z3.Contains(p, sepv))):
+                    known = sep == '\n' and tid(p) in ctx.notes.get('nonewline', ())
+                    if not known and not ctx.entails(
+                            z3.Not(z3.Contains(p, sepv))):
                         ok = False
                         break
                     lines[-1].append(p)
@@ -1440,6 +1450,10 @@ class Library(object):
         ctx.assume(z3.InRe(r, alphabet))
         ctx.assume((r == spec.EMPTY) == (t == spec.EMPTY))
         ctx.notes.setdefault('quote_calls', []).append((t, safe, r))
+        ctx.notes.setdefault('ascii', set()).add(tid(r))
+        if '\n' not in safe:
+            ctx.notes.setdefault('nonewline', set()).add(tid(r))
+            ctx.assume(z3.Not(z3.Contains(r, z3.StringVal('\n'))))
         return mk(r)
 
     def lib_unquote(self, I, a, k, fn, name):
@@ -1467,6 +1481,21 @@ class Library(object):
         f = z3.StringVal(fmt)
         t = z3str(text)
         ok = spec.strptime_ok_f(f, t)
+        ctx.notes.setdefault('strptime_formats', []).append(fmt)
+        # strptime(prefix + strftime(d, F), prefix + F) = d truncated to
+        # seconds, for 1000 <= year (axiom of the datetime model)
+        ps = spec.pieces(t)
+        if len(ps) == 2 and spec.lit(ps[0]) is not None and z3.is_app(ps[1]) \
+                and ps[1].decl().name() == 'strftime':
+            pre = spec.lit(ps[0])
+            wfmt = spec.lit(ps[1].arg(0))
+            d_us = ps[1].arg(1)
+            if wfmt is not None and fmt == pre + wfmt and \
+                    wfmt == '%Y-%m-%dT%H:%M:%S':
+                big = d_us >= 31536000000000 * 1000
+                ctx.assume(z3.Implies(big, ok))
+                ctx.assume(z3.Implies(big, spec.strptime_val_f(f, t) ==
+                                      d_us - d_us % 1000000))
         if not ctx.branch(ok, 'strptime-ok'):
             raise PyExc(self.make_exc('ValueError', 'time data does not match'))
         us = spec.strptime_val_f(f, t)
